@@ -41,9 +41,33 @@ const SIMD_THRESHOLD: usize = 64;
 /// Checksum stored after each record at checksum levels 2 and 3
 ///
 /// The builder appends it and the store verifies it, so both must use this one definition.
+///
+/// CRC-32C (Castagnoli). A plain byte sum verified zero-filled (never written) sectors and any
+/// permutation of the record's bytes.
 pub(crate) fn record_checksum(data: &[u8]) -> u32 {
-    data.iter().fold(0u32, |acc, &byte| acc.wrapping_add(byte as u32))
+    let mut crc = !0u32;
+    for &byte in data {
+        crc = CRC32C_TABLE[((crc ^ byte as u32) & 0xFF) as usize] ^ (crc >> 8);
+    }
+    !crc
 }
+
+/// Lookup table for the reflected CRC-32C polynomial 0x82F63B78
+const CRC32C_TABLE: [u32; 256] = {
+    let mut table = [0u32; 256];
+    let mut i = 0;
+    while i < 256 {
+        let mut crc = i as u32;
+        let mut bit = 0;
+        while bit < 8 {
+            crc = if crc & 1 != 0 { (crc >> 1) ^ 0x82F6_3B78 } else { crc >> 1 };
+            bit += 1;
+        }
+        table[i] = crc;
+        i += 1;
+    }
+    table
+};
 
 /// Configuration for ZipOffsetBlobStore
 #[derive(Debug, Clone)]
@@ -651,22 +675,8 @@ impl ZipOffsetBlobStore {
 
     /// Calculate CRC32C checksum with SIMD optimization
     fn calculate_crc32c(&self, data: &[u8]) -> u32 {
-        // TODO: Implement hardware-accelerated CRC32C
-        // For now, use simple checksum with SIMD benefits for large data
-        if self.should_use_simd(data.len()) {
-            // For large data, process in chunks with potential SIMD benefits
-            // This is a placeholder - actual implementation would use hardware CRC32C
-            let mut checksum = 0u32;
-            let chunk_size = 64;
-            
-            for chunk in data.chunks(chunk_size) {
-                checksum = chunk.iter().fold(checksum, |acc, &byte| acc.wrapping_add(byte as u32));
-            }
-            checksum
-        } else {
-            // Standard implementation for small data
-            record_checksum(data)
-        }
+        // Must be the function the builder appended to the record, whatever the record size
+        record_checksum(data)
     }
 
     /// Verify checksum using SIMD-optimized comparison
